@@ -63,7 +63,8 @@ def lemma_correction_additive():
     g, a, b, c = z3.Reals("g a b c")
     x, y = z3.Reals("x y")
     alog = ForAll([x, y], Implies(And(x > 0, y > 0), LOG(x * y) == LOG(x) + LOG(y)))
-    return [a > 0, b > 0, c > 0, alog, (b / a) * (c / b) == c / a], (g - LOG(b / a)) - LOG(c / b) == g - LOG(c / a)
+    inst = Implies(And(b / a > 0, c / b > 0), LOG((b / a) * (c / b)) == LOG(b / a) + LOG(c / b))  # the instance of A-LOG that is used
+    return [a > 0, b > 0, c > 0, alog, inst, (b / a) * (c / b) == c / a], (g - LOG(b / a)) - LOG(c / b) == g - LOG(c / a)
 
 
 def lemma_ratio_product():
